@@ -349,6 +349,32 @@ def main():
                 err = np.abs(u - want).max() / (1 + np.abs(want).max())
                 if err > 1e-9:
                     res.fail(f"beam patch {mode} timo={timo} elem={et}", f"constant {'axial strain' if mode == 'axial' else 'curvature'} field not reproduced at the nodes: max error {err:.2e}", ident)
+                    continue
+                # the same member stretched in place (mesh.coord = ...) on the simulation that has already solved: the stretched
+                # member is as valid a mesh as any, the same kind of field must be reproduced on it
+                fac = rng.choice([1.6, 0.625])
+                smesh = s.mesh                     # the simulation works on its own beam mesh (converted from the one it was given)
+                X0s = smesh.coord.copy()
+                try:
+                    smesh.coord = np.array([0.25, -0.5, 0.0]) + (X0s - np.array([0.25, -0.5, 0.0])) * fac
+                    s2loc = sloc * fac
+                    if mode == "axial":
+                        uloc2, vloc2, rz2 = e0 * s2loc, 0 * s2loc, 0 * s2loc
+                    else:
+                        uloc2, vloc2, rz2 = 0 * s2loc, kap * s2loc**2 / 2, kap * s2loc
+                    want2 = np.stack([uloc2 * d[0] + vloc2 * nrm[0], uloc2 * d[1] + vloc2 * nrm[1], rz2], axis=1)
+                    s.Bc_Init()
+                    s.add_dirichlet(ends, [want2[ends, 0], want2[ends, 1], want2[ends, 2]], ["x", "y", "rz"])
+                    u2 = np.asarray(s.Solve()).reshape(-1, 3)
+                    res.case(("beam", et, timo, mode, "stretched in place"))
+                    err2 = np.abs(u2 - want2).max() / (1 + np.abs(want2).max())
+                    if err2 > 1e-9:
+                        res.fail(f"beam patch {mode} timo={timo} elem={et} after the member was stretched in place", f"after mesh.coord was scaled by {fac} on the simulation that had already solved, the constant "
+                                 f"{'axial strain' if mode == 'axial' else 'curvature'} field is not reproduced: max error {err2:.2e}", dict(ident, stretch=fac))
+                except Exception as ex:  # noqa: BLE001
+                    res.fail(f"beam patch raises after stretching {mode}", f"{type(ex).__name__}: {str(ex)[:150]}", ident)
+                finally:
+                    smesh.coord = X0s
 
     answers = driver.ask(lines)
     if answers is None:
